@@ -1,5 +1,6 @@
 import DoltVerif.Model.Wire
 import DoltVerif.Model.SqlEscape
+import DoltVerif.Model.SqlEscapeCsv
 /-!
 Model driver for C36 (`dv_sqlescape`):
   quote <hex>        → hex of the literal
@@ -14,7 +15,38 @@ def res : Option (Bytes × Bytes) → String
   | some (v, r) => s!"ok {hex v} {hex r}"
   | none => "err"
 
+def toRunes (b : List UInt8) : Option (List Nat) :=
+  (String.fromUTF8? (ByteArray.mk b.toArray)).map (fun s => s.toList.map Char.toNat)
+def ofRunes (r : List Nat) : List UInt8 := (String.ofList (r.map Char.ofNat)).toUTF8.toList
+
+/-- `csvw N` / `csvw S<hex>` → hex of the written field; `csvr <hex of "field,rest">` → `N` | `S<hex>` | `err`;
+`isspace <n>` → 0/1 -/
+def csvStep : List String → Option String
+  | ["csvw", "N"] => some (hex (ofRunes (Csv.writeField none)))
+  | ["csvw", a] =>
+    if a.startsWith "S" then
+      match unhex (if a.length == 1 then "-" else (a.drop 1).toString) with
+      | some b => (toRunes b).map (fun r => hex (ofRunes (Csv.writeField (some r))))
+      | none => none
+    else none
+  | ["csvr", h] =>
+    match unhex h with
+    | some b =>
+      match toRunes b with
+      | some r =>
+        match Csv.readField r with
+        | some (none, _) => some "N"
+        | some (some v, _) => some ("S" ++ hex (ofRunes v))
+        | none => some "err"
+      | none => none
+    | none => none
+  | ["isspace", n] => n.toNat?.map (fun k => if Csv.isSpace k then "1" else "0")
+  | _ => none
+
 def step (_ : Unit) : List String → Unit × String
+  | "csvw" :: r => ((), (csvStep ("csvw" :: r)).getD "bad-op")
+  | "csvr" :: r => ((), (csvStep ("csvr" :: r)).getD "bad-op")
+  | "isspace" :: r => ((), (csvStep ("isspace" :: r)).getD "bad-op")
   | [op, h] =>
     match unhex h with
     | none => ((), "bad-op")
